@@ -209,6 +209,18 @@ theorem gather_forced {V} (d : Nat) (p : Tag) (ts : List (Tok V)) (hne : ts ≠ 
   rw [terms_general d _ h6 pa pb hab sa sb, h7, h3, h4, h5]
   simp [hne, addKey, forceOut, h2]
 
+/-- the status logic the models use (`reduce2` = `_reduce_statuses([a, b])`, `getStatus` = `BaseStep._get_status`) is built from the arms
+    and the if-chains extracted from the source (`SFV/Gen/StepGuards.lean`); spelled out, it is this table -/
+theorem status_logic_spec :
+    (∀ a b : Status, reduce2 a b =
+      (if a = .failed then .failed else if a = .cancelled then .cancelled
+       else if b = .failed then .failed else if b = .cancelled then .cancelled
+       else if a = .recovered ∨ b = .recovered then .recovered
+       else if a = .skipped ∧ b = .skipped then .skipped else .completed)) ∧
+    (∀ (s : Status) (e : Bool), getStatus s e =
+      (if s = .failed then s else if s = .recovered then .completed else if e then .skipped else s)) :=
+  ⟨reduce2_table, getStatus_table⟩
+
 /-- **`ScatterStep.run` as a whole.** Fed the list tokens `ins` (any number, any lengths) and then its termination token, the
     step puts on its element port the elements of every list retagged `tag.i`, list after list, on its size port one size token
     per list, and terminates both ports — with status SKIPPED when it emitted no element at all (only empty lists, or nothing). -/
